@@ -9,7 +9,8 @@ THEORY = ["theories/Base/ListExtra.v", "theories/Base/Bytes.v", "theories/Base/C
 
 
 def case_text(c, seed):
-    s = "seed %d\ncase %s pkgs pkg=%s comp=%s n=%d extra=%d seed=%d\n" % (seed, c["id"], c["pkg"], c["comp"], c["n"], c["extra"], c["seed"])
+    s = "seed %d\ncase %s pkgs pkg=%s comp=%s n=%d extra=%d seed=%d%s\n" % (seed, c["id"], c["pkg"], c["comp"], c["n"], c["extra"], c["seed"],
+                                                                             ((" idgap=%d" % c["idgap"]) if c.get("idgap") else "") + ((" cmax=%d" % c["cmax"]) if c.get("cmax") else "") + ((" orphans=%d" % c["orphans"]) if c.get("orphans") else ""))
     for op in c.get("ops", []):
         s += " ".join(op) + "\n"
     return s + "end\n"
@@ -17,9 +18,10 @@ def case_text(c, seed):
 
 def parse_replay(path):
     cases = []
-    for m in re.finditer(r"case (\S+) pkgs pkg=(\S+) comp=(\S+) n=(\d+) extra=(\d+) seed=(\d+)\n((?:(?!end).*\n)*)end", open(path).read()):
-        ops = [tuple(l.split(" ")) for l in m.group(7).splitlines() if l and not l.startswith("#")]
-        cases.append(dict(id=m.group(1), pkg=m.group(2), comp=m.group(3), n=int(m.group(4)), extra=int(m.group(5)), seed=int(m.group(6)), ops=ops))
+    for m in re.finditer(r"case (\S+) pkgs pkg=(\S+) comp=(\S+) n=(\d+) extra=(\d+) seed=(\d+)(?: idgap=(\d+))?(?: cmax=(\d+))?(?: orphans=(\d+))?\n((?:(?!end).*\n)*)end", open(path).read()):
+        ops = [tuple(l.split(" ")) for l in m.group(10).splitlines() if l and not l.startswith("#")]
+        cases.append(dict(id=m.group(1), pkg=m.group(2), comp=m.group(3), n=int(m.group(4)), extra=int(m.group(5)), seed=int(m.group(6)),
+                          idgap=int(m.group(7) or 0), cmax=int(m.group(8) or 0), orphans=int(m.group(9) or 0), ops=ops))
     return cases
 
 
@@ -120,7 +122,12 @@ def oracle_uuids(rlines):
     return d
 
 
-def expected_std(n, extra, seed):
+def pack_number(c, pack_id):
+    """position of a pack among the files of a standard container (0 directory, 1 main content pack, 2.. extra packs) from its pack id"""
+    return pack_id if pack_id <= 1 else pack_id - c.get("idgap", 0)
+
+
+def expected_std(n, extra, seed, idgap=0, cmax=0, orphans=0):
     """the logical content harness/src/mkcont.rs std_container writes (entries + content bytes), as dump lines"""
     lines = ["index idx store=0 offset=0 count=%d" % n]
     counts = {}
@@ -128,10 +135,11 @@ def expected_std(n, extra, seed):
         name = ("name%d-%d" % (i, seed % 97)).encode()
         if i % 2 == 0:
             ln = [0, 5, 52, 300, 1000, 4100][(i // 2 + seed) % 6]
+            ln = ln % (cmax + 1) if cmax else ln
             data = C.gen_bytes(ln, seed + i, "t" if i % 4 == 0 else "r")
             slot = (i // 2) % (1 + extra)
-            pack = 1 + slot
-            idx = counts.get(pack, 0)
+            pack = 1 if slot == 0 else 1 + slot + idgap
+            idx = counts.get(pack, orphans if pack == 1 else 0)
             counts[pack] = idx + 1
             lines.append("entry idx %d v=0 AInteger=u%d AString=a%s TheContent=c%d:%d=%s" % (
                 i, 1000 + i * 69000, C.show(name), pack, idx, C.show(data)))
